@@ -228,6 +228,43 @@ def evaluate(item):
                     signac.Project(qp).check()
                 except Exception as e:  # noqa
                     bad("check-fails-after-import", f"{type(e).__name__}: {e}")
+                # second round in the same process, to the SAME target path, after the source project changed (one job
+                # added if the universe has another state point, else the last one removed): nothing remembered from the
+                # first round may show through
+                if not viol and mode == "empty":
+                    rest = [i for i in range(len(UNIVERSES[uni])) if i not in idxs]
+                    S2 = signac.Project(sp_)
+                    if rest:
+                        fill(S2.open_job(UNIVERSES[uni][rest[0]]).init(), 7)
+                        sps2 = sps + [UNIVERSES[uni][rest[0]]]
+                    else:
+                        S2.open_job(sps[-1]).remove()
+                        sps2 = sps[:-1]
+                    src2 = project_content(sp_)
+                    src_content = src2  # what the source project is expected to hold from now on
+                    if os.path.isdir(target):
+                        shutil.rmtree(target)
+                    else:
+                        os.remove(target)
+                    try:
+                        signac.Project(sp_).export_to(target, path=make_pathspec(spec, src2))
+                        q2 = os.path.join(root, "Q2")
+                        os.makedirs(q2)
+                        signac.init_project(q2)
+                        signac.Project(q2).import_from(target)
+                        second = None
+                    except Exception as e:  # noqa
+                        second = e
+                    if second is None:
+                        got2 = project_content(q2)
+                        if {k: (canon.canon_json(v[0]), canon.canon_json(v[1]), v[2]) for k, v in got2.items()} != \
+                                {k: (canon.canon_json(v[0]), canon.canon_json(v[1]), v[2]) for k, v in src2.items()}:
+                            bad("second-round-differs", f"after changing the source project ({len(sps)} -> {len(sps2)} jobs) and "
+                                f"exporting to the same path again, the re-import holds {sorted(got2)}, the source {sorted(src2)}",
+                                target=tkind)
+                    elif not export_may_fail(sps2, spec):
+                        bad("second-round-raises", f"second export/import round to the same path raised {type(second).__name__}: {second}",
+                            target=tkind, exc=type(second).__name__)
         if canon.snapshot(sp_) != {k[2:]: v for k, v in before_root.items() if k.startswith("S/")} and False:
             pass
         now_src = project_content(sp_)
